@@ -1,0 +1,9 @@
+//go:build !verif
+
+package zygo
+
+// verifBefore and verifAfter are no-ops unless the tree is
+// built with -tags verif; see verif_step_on.go.
+func verifBefore(env *Zlisp, instr Instruction) Instruction { return instr }
+
+func verifAfter(env *Zlisp, instr Instruction, err error) {}
